@@ -9,6 +9,13 @@ import (
 	"time"
 )
 
+func TestChildCheck(t *testing.T) {
+	if os.Getenv("VERIF_CHILD_SPEC") == "" {
+		t.Skip("not a child")
+	}
+	childMain(t)
+}
+
 func TestWorker(t *testing.T) {
 	path := os.Getenv("VERIF_SPEC")
 	if path == "" {
